@@ -20,7 +20,7 @@ NoH == [k |-> "none"]
 IdOf(e) == e[1]
 Ids(s)  == [i \in 1..Len(s) |-> s[i][1]]          \* sequence of ids of a sequence of elements
 IdSet(s) == {s[i][1] : i \in 1..Len(s)}
-Toggle(e) == <<e[1], 1 - e[2]>>
+Toggle(e) == IF Cfg.ids THEN <<e[1], 1 - e[2]>> ELSE e     \* zero-sized values carry no payload (A9)
 Max2(x, y) == IF x >= y THEN x ELSE y
 
 SetV(st, x, r) == [st EXCEPT !.v[x] = r]
